@@ -46,12 +46,26 @@ Definition whole_groups (text : list N) : list N :=
 Inductive c14_case :=
 | Enc (chunks : list (list N)) (impl : res)
     (* Base64Encoder: one write_all per chunk, then finish() *)
-| Dec (orig : option (list N)) (text : list N) (sched : list N) (dests : list N) (impl : res).
+| Dec (orig : option (list N)) (text : list N) (sched : list N) (dests : list N) (impl : res)
     (* Base64Decoder over a reader that returns sched[k] bytes on its k-th call,
        drained with destination buffers of sizes dests (cyclic); orig = Some x
        when text was produced as the reference RFC 4648 encoding of x *)
+(* DecTail: the same decoder consumed in two steps: the first reads through `read` with the destination
+   sizes `dests`, the rest through one of the std conveniences that sit on top of `read` (read_to_end,
+   bytes(), take(n).read_to_end ...), whose buffer sizes are std's business.  What is decoded does not
+   depend on the destination sizes, only how much had been handed out before an error does: a result Ok
+   must be the model's, an error must be an error with a prefix of the complete groups *)
+| DecTail (orig : option (list N)) (text : list N) (sched : list N) (dests : list N) (impl : res).
 
 Definition nats (l : list N) : list nat := map N.to_nat l.
+
+Definition tail_agrees (model impl : res) : bool :=
+  match model, impl with
+  | ROk a, ROk b => nlist_eqb a b
+  | RErr _, RErr _ => true
+  | RPanic, RPanic => true
+  | _, _ => false
+  end.
 
 Definition c14_check (c : c14_case) : bool * bool :=
   match c with
@@ -63,6 +77,15 @@ Definition c14_check (c : c14_case) : bool * bool :=
        negb (res_eqb impl RPanic)
        && (if Nat.eqb (Nat.modulo (length text) 4) 0 then true else is_err impl)
        (* whatever was handed out before an error is a prefix of the decoding of the complete groups *)
+       && match impl with RErr p => is_prefix p (whole_groups text) | _ => true end
+       && match orig with
+          | Some x => nlist_eqb text (rfc4648 x) && res_eqb impl (ROk x)
+          | None => true
+          end)
+  | DecTail orig text sched dests impl =>
+      (tail_agrees (res_of_partial (decode_all_partial text (nats sched) (nats dests))) impl,
+       negb (res_eqb impl RPanic)
+       && (if Nat.eqb (Nat.modulo (length text) 4) 0 then true else is_err impl)
        && match impl with RErr p => is_prefix p (whole_groups text) | _ => true end
        && match orig with
           | Some x => nlist_eqb text (rfc4648 x) && res_eqb impl (ROk x)
